@@ -76,6 +76,12 @@ source_generics = st.one_of(
     st.tuples(st.sampled_from([["c", "str"], ["c", "int"]]), _cls_leaf).map(lambda p: ["P585", "dict", p[0], p[1]]),
     st.tuples(_cls_leaf, st.sampled_from([["c", "None"], ["c", "int"], ["c", "nmfoo.Baz"]])).filter(lambda p: p[0] != p[1]).map(lambda p: ["P604", p[0], p[1]]),
     st.tuples(_cls_leaf).map(lambda p: ["P585", "list", ["P604", p[0], ["c", "None"]]]),
+    # ... wrapped around typing's own generics (`list[Optional[C]]`, `dict[str, List[C]]`, `Box[List[C]]`): the outer node is not a
+    # `typing` object but holds some
+    st.tuples(st.sampled_from(["list", "set", "type-free"]), _cls_leaf).map(lambda p: ["P585", "list" if p[0] == "type-free" else p[0], ["Union", [p[1], ["c", "None"]]]]),
+    _cls_leaf.map(lambda t: ["P585", "dict", ["c", "str"], ["List", t]]),
+    _cls_leaf.map(lambda t: ["UserGen", ["List", t]]),
+    _cls_leaf.map(lambda t: ["P604", ["List", t], ["c", "None"]]),
     # a user-defined generic class, also with None as its argument
     st.one_of(_cls_leaf, st.just(["c", "None"]), st.just(["c", "None"])).map(lambda t: ["UserGen", t]),
 )
@@ -106,7 +112,8 @@ inferred_types = st.one_of(_vals.values(2), st.tuples(st.sampled_from(["deque", 
     lambda p: {"deque": ["deque", [p[1]]], "list": ["list", [p[1]]], "tuple": ["tuple", [p[1], ["lit", 1]]], "odict": ["odict", [[["lit", "a"], p[1]]]],
                "ddict": ["ddict", [[["lit", 0], p[1]]]], "set-of-tuples": ["set", [["tuple", [["lit", 1], ["lit", "s"]]]]]}[p[0]])).map(lambda v: ["inferred", v])
 types = st.one_of(general_types, general_types, general_types, sibling_tds, inferred_types,
-                  st.sampled_from([["UserGen", ["c", "None"]], ["UserGen", ["c", "nmutils.A"]], ["CallableP", [], ["c", "None"]], ["Gen1", "Iterable", ["c", "None"]]]))
+                  st.sampled_from([["UserGen", ["c", "None"]], ["UserGen", ["c", "nmutils.A"]], ["CallableP", [], ["c", "None"]], ["Gen1", "Iterable", ["c", "None"]],
+                                   ["P585", "list", ["Union", [["c", "nmfoo.Baz"], ["c", "None"]]]], ["UserGen", ["List", ["c", "int"]]]]))
 
 
 def build(s, C):
